@@ -29,7 +29,9 @@ PROP = dict(
     rule="scenario product: old session MQTT 3/4/5 x clean 0/1 x expiry 0/30 x new connection MQTT 4/5 x clean 0/1 x "
          "{takeover of a live connection, reconnect after a network drop, takeover with late teardown} with subscriptions, "
          "unacknowledged QoS 1 messages and probe publishes before/after; 250 (thorough 6000) random histories of 22 (32) "
-         "operations over two client ids; forced schedules: stale takeover check x clean 0/1, sequential orders, publish "
+         "operations over two client ids; forced schedules: stale takeover check x clean 0/1, sequential orders, an old connection that stopped for its own "
+         "reason before the takeover (own DISCONNECT, parked at attach.readReturned until the new connection is through; "
+         "Compatibilities.PassiveClientDisconnect: not stopped by the takeover, closes later) x clean 0/1, publish "
          "inside/outside the inherit window x MQTT 4/5.  non-trivial = history of more than two steps or a forced schedule",
     modelled="server.go attachClient, inheritClientSession, DisconnectClient, UnsubscribeClient, SendConnack, the handler "
              "tail of attachClient; clients.go ParseConnect, Stop, ResendInflightMessages (as a multiset)",
